@@ -424,6 +424,10 @@ class Resolver:
         if l in self.cache:
             return self.cache[l]
         r = ('loc', l)
+        if getattr(self, 'stop_named', False) and self.b.locals[l].get('name'):
+            # express values over the program's own variables: a named local is a leaf
+            self.cache[l] = r
+            return r
         if l > self.b.arg_count and d < self.max_depth:
             sd = self.b.single_def(l)
             if sd is not None:
@@ -727,7 +731,9 @@ def post_dominators(body):
     """pdom[b] = set of blocks post-dominating b (virtual exit = -1 joins returns and diverging blocks)."""
     n = len(body.blocks)
     reach = body.reachable()
-    succ = {b: (list(body.succ[b]) or [-1]) for b in reach}
+    # the `otherwise -> unreachable` edge of an exhaustive match cannot be taken: it is not a way out of anything
+    dead = {b for b in reach if 'unreachable' in body.blocks[b]['t'] and not body.blocks[b]['s']}
+    succ = {b: ([s for s in body.succ[b] if s not in dead or len(body.succ[b]) == 1] or [-1]) for b in reach}
     for b in reach:
         if 'return' in body.blocks[b]['t']:
             succ[b] = [-1]
@@ -769,6 +775,45 @@ def control_dependence(body):
                 elif E in pdom[S] and E != S:
                     pass
     return out
+
+
+def min_select(body, l, r=None, cd=None):
+    """If local l is `if y < x { y } else { x }` (any comparison operator, either operand order) — the smaller of the two values
+    it is assigned, i.e. min(x, y) written as a branch — return (x, y) as resolved expressions, else None."""
+    ds = body.defs.get(l, [])
+    if len(ds) != 2 or any(d[2] not in ('assign', 'call') for d in ds):
+        return None
+    r = r or Resolver(body)
+    (b1, _, k1, n1), (b2, _, k2, n2) = ds
+    v1 = r.rvalue(n1['rv']) if k1 == 'assign' else r.call(n1, b1, 0)
+    v2 = r.rvalue(n2['rv']) if k2 == 'assign' else r.call(n2, b2, 0)
+    if v1 == v2:
+        return None
+    cd = cd if cd is not None else control_dependence(body)
+    for (S1, A1) in cd.get(b1, set()):
+        for (S2, A2) in cd.get(b2, set()):
+            if S1 != S2 or A1 == A2:
+                continue
+            t = body.blocks[S1]['t']
+            if 'switch' not in t or t.get('sty') != 'bool':
+                continue
+            cond = Resolver(body).operand(t['switch'])
+            if cond[0] != 'bin' or cond[1] not in ('Lt', 'Le', 'Gt', 'Ge') or {cond[2], cond[3]} != {v1, v2}:
+                continue
+            ok = True
+            for A, v in ((A1, v1), (A2, v2)):
+                labs = [lab for lab, tgt in switch_edges(body, S1) if tgt == A]
+                truth = bool_truth(body, S1, labs[0]) if len(labs) == 1 else None
+                if truth is None:
+                    ok = False
+                    break
+                x, y = cond[2], cond[3]
+                small = (x if truth else y) if cond[1] in ('Lt', 'Le') else (y if truth else x)
+                if v != small:
+                    ok = False
+            if ok:
+                return (v1, v2)
+    return None
 
 
 def resolve_at(body, e, bb, depth=0):
